@@ -4,6 +4,7 @@ package p15
 
 import (
 	"bytes"
+	"crypto/sha256"
 	"encoding/hex"
 	"fmt"
 	"math/big"
@@ -731,6 +732,19 @@ func genTxo(r *core.Rand) (txo, string) {
 }
 
 // vlqBytes is the generator's own VLQ encoder (independent of the code under test).
+// shuffle returns a random permutation of 0..n-1.
+func shuffle(r *core.Rand, n int) []int {
+	p := make([]int, n)
+	for i := range p {
+		p[i] = i
+	}
+	for i := n - 1; i > 0; i-- {
+		j := r.Intn(i + 1)
+		p[i], p[j] = p[j], p[i]
+	}
+	return p
+}
+
 func vlqBytes(n uint64) []byte { return encVLQBig(new(big.Int).SetUint64(n)) }
 
 // try runs a real encoder inside the generator; a panic there (a size calculator that disagrees with
@@ -997,6 +1011,136 @@ func (P) Generate(g *core.Gen) {
 		b := r.Bytes(r.Intn(60))
 		op := []string{"untxo", "unutxo", "unstxo"}[r.Intn(3)]
 		rec(g, op+"-random", len(b) > 0, fmt.Sprintf("C15 %s %s", op, hexTok(b)))
+	}
+
+	// ---- round 3, lesson 10: every value of every one-byte discriminator, every position of a list
+	{
+		key := validKey(r, true)
+		ukey := validKey(r, false)
+		for v := 0; v < 256; v++ {
+			b := byte(v)
+			// script type / size byte of a compressed txout, with payloads around every special size
+			for _, tail := range []int{0, 19, 20, 21, 31, 32, 33, 60} {
+				body := r.Bytes(tail)
+				if tail >= 32 && v%2 == 0 {
+					copy(body, key[1:])
+				}
+				rec(g, "untxo-type-sweep", true, "C15 untxo "+hexTok(append([]byte{0x09, b}, body...)))
+			}
+			// first byte of the header code (utxo, stxo), reserved byte of an stxo with height > 0
+			rec(g, "unutxo-code-sweep", true, "C15 unutxo "+hexTok(append([]byte{b, 0x32, 0x00}, r.Bytes(21)...)))
+			rec(g, "unstxo-code-sweep", true, "C15 unstxo "+hexTok(append([]byte{b, 0x00, 0x32, 0x00}, r.Bytes(21)...)))
+			rec(g, "unstxo-reserved-sweep", true, "C15 unstxo "+hexTok(append([]byte{0x13, b, 0x05, 0x32, 0x07, 0x51}, r.Bytes(3)...)))
+			// status byte of a block index row
+			rec(g, "unrow-status-sweep", true, "C15 unrow "+hexTok(append(r.Bytes(80), b)))
+			// every fixed byte of the special script forms, and the key format byte
+			mut := func(class string, s []byte, pos int) {
+				c := append([]byte{}, s...)
+				c[pos] = b
+				rec(g, class, true, "C15 scr "+hexTok(c))
+				rec(g, class, true, "C15 scrrt "+hexTok(c))
+			}
+			pk, sh := p2pkh(r.Bytes(20)), p2sh(r.Bytes(20))
+			mut("scr-p2pkh-sweep", pk, []int{0, 1, 2, 23, 24}[v%5])
+			mut("scr-p2sh-sweep", sh, []int{0, 1, 22}[v%3])
+			mut("scr-p2pk-sweep", p2pk(key), []int{0, 1, 34}[v%3])
+			mut("scr-p2pk-sweep", p2pk(ukey), []int{0, 1, 66}[v%3])
+			mut("scr-p2pk-format-sweep", p2pk(key), 1)
+			mut("scr-p2pk-format-sweep", p2pk(ukey), 1)
+		}
+		// a damaged element at the first / a middle / the last position of a journal and of a v0 entry
+		for rep := 0; rep < g.N(6, 200); rep++ {
+			n := 3 + r.Intn(4)
+			parts := make([][]byte, n)
+			for i := range parts {
+				t, _ := genTxo(r)
+				if len(t.script) > 120 {
+					t.script = t.script[:r.Intn(60)]
+				}
+				st := t.stxo()
+				parts[i], _ = try(func() []byte { b, _ := blockchain.VerifPutSpentTxOut(&st); return b })
+			}
+			for _, pos := range []int{0, n / 2, n - 1} {
+				for kind := 0; kind < 4; kind++ {
+					c := make([][]byte, n)
+					for i := range parts {
+						c[i] = append([]byte{}, parts[i]...)
+					}
+					switch kind {
+					case 0: // continuation bit somewhere in the element
+						if len(c[pos]) > 0 {
+							c[pos][r.Intn(len(c[pos]))] |= 0x80
+						}
+					case 1: // element cut short
+						c[pos] = c[pos][:r.Intn(len(c[pos])+1)]
+					case 2: // hostile script size
+						hs := hostileScripts(r)
+						c[pos] = append([]byte{0x13, 0x00, 0x32}, hs[r.Intn(len(hs))]...)
+					case 3: // legacy reserved slot holding a multi-byte VLQ (tx version >= 128)
+						c[pos] = append([]byte{0x13, 0x80 | byte(r.Intn(128)), byte(r.Intn(128)), 0x32, 0x00}, r.Bytes(20)...)
+					}
+					rec(g, "unjournal-position", true, fmt.Sprintf("C15 unjournal %s %d", hexTok(bytes.Join(c, nil)), n))
+				}
+			}
+		}
+	}
+
+	// ---- round 3, lesson 7: heterogeneous journals (one stxo of every script class, every height kind, both flags)
+	for i := 0; i < g.N(30, 1500); i++ {
+		k1, k2 := validKey(r, true), validKey(r, false)
+		scripts := [][]byte{p2pkh(r.Bytes(20)), p2sh(r.Bytes(20)), p2pk(k1), p2pk(k2), r.Bytes(r.Intn(40)), {}, p2pk(append([]byte{3}, r.Bytes(32)...))}
+		heights := []int32{0, 1, 63, 64, -1, 2147483647, int32(r.Range(2, 800000))}
+		l := make([]txo, len(scripts))
+		for j, p := range shuffle(r, len(scripts)) {
+			l[j] = txo{genAmount(r), scripts[p], heights[shuffle(r, len(heights))[0]], (i+j)%2 == 0}
+		}
+		rec(g, "journal-hetero", true, "C15 journal "+showTxos(l))
+		var sl []blockchain.SpentTxOut
+		for _, t := range l {
+			sl = append(sl, t.stxo())
+		}
+		if ser, ok := try(func() []byte { return blockchain.VerifSerializeSpendJournalEntry(sl) }); ok {
+			rec(g, "unjournal-hetero", true, fmt.Sprintf("C15 unjournal %s 3,0,4", hexTok(ser)))
+		}
+	}
+
+	// ---- round 3, lesson 8: rare shapes reached directly
+	{
+		// public keys whose X (and Y) coordinates have leading zero bytes
+		found := 0
+		for i := 0; found < g.N(6, 40) && i < 200000; i++ {
+			seed := sha256.Sum256([]byte(fmt.Sprintf("c15-leadzero-%d-%d", g.Seed, i)))
+			_, pub := btcec.PrivKeyFromBytes(seed[:])
+			u := pub.SerializeUncompressed()
+			if u[1] != 0 && u[33] != 0 {
+				continue
+			}
+			found++
+			for _, s := range [][]byte{p2pk(pub.SerializeCompressed()), p2pk(u)} {
+				rec(g, "scr-p2pk-leadzero", true, "C15 scr "+hexTok(s))
+				rec(g, "scrrt-p2pk-leadzero", true, "C15 scrrt "+hexTok(s))
+				rec(g, "utxo-p2pk-leadzero", true, fmt.Sprintf("C15 utxo %s 0", txo{genAmount(r), s, genHeight(r), r.Bool()}))
+			}
+		}
+		// the same X with a valid, a damaged and the negated Y, one after the other (a validity memo keyed by X shows)
+		for i := 0; i < g.N(20, 600); i++ {
+			k := validKey(r, false)
+			bad := append([]byte{}, k...)
+			bad[33+r.Intn(32)] ^= byte(1 << r.Intn(8))
+			neg := append([]byte{}, k...)
+			new(big.Int).Sub(curveP, new(big.Int).SetBytes(k[33:])).FillBytes(neg[33:])
+			c2, c3 := append([]byte{2}, k[1:33]...), append([]byte{3}, k[1:33]...)
+			for _, key := range [][]byte{k, bad, neg, c2, c3, bad, k} {
+				rec(g, "scr-p2pk-samex", true, "C15 scr "+hexTok(p2pk(key)))
+				rec(g, "scrrt-p2pk-samex", true, "C15 scrrt "+hexTok(p2pk(key)))
+			}
+		}
+		// best-state records whose work sum bytes carry leading zeros (never written, must still decode)
+		for i := 0; i < g.N(40, 1000); i++ {
+			ws := append(make([]byte, 1+r.Intn(3)), r.Bytes(r.Intn(34))...)
+			b := append(r.Bytes(32), 1, 0, 0, 0, 5, 0, 0, 0, 0, 0, 0, 0, byte(len(ws)), 0, 0, 0)
+			rec(g, "unbest-leadzero", true, "C15 unbest "+hexTok(append(b, ws...)))
+		}
 	}
 
 	// ---- spend journal
